@@ -138,6 +138,7 @@ def plan(tier, seed):
         (corner("unit8", prefix=A.GL, retarget=220, fixed_rt=30, pjt=0), rt, 3),
         (corner("real", prefix=A.GL, retarget=100, fixed_rt=200, name="real-fixed-longer-than-interval"), rt, 3),
         (corner("unit8", prefix=A.GL, name="unit8-fall-tail"), A.fall_tail(rise=60), 4 if tier == "quick" else 3),
+        (corner("awk", prefix=A.GL, qubits=3, qid_alias={"q0": 2, "q1": 0, "q2": 1}, name="awk-int-ids-out-of-order"), rt, 3),
         (corner("awk", prefix=[("declare", "g", "rydberg_global")], name="awk-eom"), A.eom_phase(), 4),
         (corner("real", prefix=[("declare", "g", "rydberg_global")], name="real-eom", eom=dict(mod_bandwidth=20)), A.eom_phase(), 4),
     ]
